@@ -138,6 +138,9 @@ func c09(c *ctx) {
 				}
 				if r.Intn(9) == 0 {
 					gu = mu + 5 // GBR above MBR: outside the stated envelope, model correspondence only
+					if gu >= 1<<40 {
+						gu = 1<<40 - 1 // the IE has 40 bits
+					}
 				}
 				q := sysh.QerIE{ID: uint32(k + 1), Qfi: uint8([]int{0, 5, 9, 63}[r.Intn(4)]), Gate: [2]uint8{uint8(r.Intn(5) / 4), uint8(r.Intn(5) / 4)}, Mbr: [2]uint64{mu, md}, Gbr: [2]uint64{gu, gd}}
 				qers = append(qers, q)
